@@ -46,14 +46,31 @@ Inductive comp :=
 | COnce (k : bytes)          (* handle.Once(): renders its children once per handle k *)
 | CFlush                     (* templ.Flush(): renders its children *)
 | CNop
-| CUnknown.
+| CUnknown
+| CJoin (args : list bytes)  (* templ.Join(a, b, ...): renders each argument with the same context *)
+| CFlushWith (arg : bytes)
+| CEager (arg : bytes).      (* hand-written eager(ctx, c): renders c at once, while the call EXPRESSION is evaluated (before any
+                                block is attached to the context), and returns the bytes as a raw component *)  (* hand-written flushWith(c): renders templ.Flush() with the COMPONENT c as its children *)
 Fixpoint upto_paren (s : bytes) : bytes := match s with [] => [] | b :: r => if Byte.eqb b x28 then [] else b :: upto_paren r end.
+(* top-level comma split of an argument list (parenthesis depth 0; the probe vocabulary has no strings with parentheses or commas) *)
+Fixpoint split_args (s acc : bytes) (depth : nat) : list bytes :=
+  match s with
+  | [] => match acc with [] => [] | _ => [rev acc] end
+  | b :: r =>
+      if Byte.eqb b x28 then split_args r (b :: acc) (S depth)
+      else if Byte.eqb b x29 then split_args r (b :: acc) (pred depth)
+      else if Byte.eqb b x2c && (depth =? 0) then rev acc :: split_args r [] 0
+      else split_args r (b :: acc) depth
+  end.
 Definition comp_of (x : bytes) : comp :=
   if beq x (bs "wrap()") then CWrap (bs "[") (bs "]") else if beq x (bs "capt()") then CWrap (bs "{") (bs "}")
   else if beq x (bs "hflush()") then CWrap (bs "<f>") (bs "</f>")
   else if beq x (bs "ignore()") then CIgnore
   else if beq x (bs "c0") then CNop
   else if beq x (bs "templ.Flush()") then CFlush
+  else if has_prefix (bs "templ.Join(") x then CJoin (map (drop_while (fun c => Byte.eqb c x20)) (split_args (removelast (skipn 11 x)) [] 0))
+  else if has_prefix (bs "flushWith(") x then CFlushWith (removelast (skipn 10 x))
+  else if has_prefix (bs "eager(ctx, ") x then CEager (removelast (skipn 11 x))
   else if has_prefix (bs "once") x then COnce (upto_paren x)
   else if has_prefix (bs "templ.Raw(""") x then CRaw (removelast (removelast (skipn 11 x)))
   else let n := upto_paren x in
@@ -159,6 +176,17 @@ Definition render_comp_with (R : rfun) (e : env) (c : comp) (x : st) : st :=
   | CWrap o c => let mine := slot x in emit c (render_block_with R mine (set_slot None (emit o x)))
   | CFlush => render_children_restoring R x
   | COnce k => if existsb (beq k) (onces x) then x else render_children_restoring R (mark_once k x)
+  | CJoin args =>
+      fold_left (fun x a => R e None (NCallT {| e_val := a; e_fi := 0%N; e_fl := 0%N; e_fc := 0%N; e_ti := 0%N; e_tl := 0%N; e_tc := 0%N |}) None x) args x
+  | CEager a =>
+      (* the argument is rendered when the callee expression is evaluated: the slot does not yet hold this call's block *)
+      let saved := slot x in
+      set_slot saved (emit (bs "</e>")
+        (R e None (NCallT {| e_val := a; e_fi := 0%N; e_fl := 0%N; e_fc := 0%N; e_ti := 0%N; e_tl := 0%N; e_tc := 0%N |}) None (emit (bs "<e>") (set_slot None x))))
+  | CFlushWith a =>
+      (* templ.Flush().Render(templ.WithChildren(ctx, c), w); ctx = templ.ClearChildren(ctx) *)
+      let blk := Blk [NCallT {| e_val := a; e_fi := 0%N; e_fl := 0%N; e_fc := 0%N; e_ti := 0%N; e_tl := 0%N; e_tc := 0%N |}] e None in
+      set_slot None (render_children_restoring R (set_slot (Some blk) x))
   | CTempl name =>
       match find_templ templates name with
       | Some body => let mine := slot x in nodes_with R (restrict e) mine (strip_ws body) None (set_slot None x)
